@@ -444,6 +444,75 @@ var canonical = map[string]tengo.Object{"text": &tengo.String{Value: "abc"}, "in
 var fPool = []float64{0, math.Copysign(0, -1), 1, -1, 0.5, 2.5, -2.5, 10, 100, 1e-9, 1e300, -1e300, math.Pi, math.E, math.NaN(), math.Inf(1), math.Inf(-1), 0.1, 3, 1e15, 123.456}
 var tPool = []time.Time{time.Time{}.In(time.FixedZone("Z1", 3600)), time.Time{}.In(time.FixedZone("Z2", -7200)), time.Unix(0, 0), time.Unix(1500000000, 123456789), time.Date(2020, 2, 29, 23, 59, 59, 999999999, time.UTC), {}, time.Date(1969, 12, 31, 0, 0, 0, 0, time.FixedZone("X", -3600)), time.Unix(-1, 0)}
 
+// domainHints: parameters whose meaningful domain is a handful of values (a format letter, a bit size, a base, a layout) or needs a
+// particular kind of value (an instant in a zone with daylight saving): drawn from here three times out of four, so that the wrapped
+// function is compared inside its domain and not only at its edge
+func hs(v ...string) []tengo.Object {
+	var o []tengo.Object
+	for _, x := range v {
+		o = append(o, &tengo.String{Value: x})
+	}
+	return o
+}
+func hi(v ...int64) []tengo.Object {
+	var o []tengo.Object
+	for _, x := range v {
+		o = append(o, &tengo.Int{Value: x})
+	}
+	return o
+}
+func hf(v ...float64) []tengo.Object {
+	var o []tengo.Object
+	for _, x := range v {
+		o = append(o, &tengo.Float{Value: x})
+	}
+	return o
+}
+func dstTimes() []tengo.Object {
+	var o []tengo.Object
+	for _, z := range []string{"America/New_York", "Europe/Berlin", "Australia/Lord_Howe"} {
+		loc, err := time.LoadLocation(z)
+		if err != nil {
+			continue
+		}
+		for _, t := range []time.Time{time.Date(2021, 3, 13, 12, 0, 0, 0, loc), time.Date(2021, 3, 14, 1, 30, 0, 0, loc), time.Date(2021, 11, 6, 12, 0, 0, 0, loc),
+			time.Date(2021, 3, 27, 2, 30, 0, 0, loc), time.Date(2021, 10, 30, 23, 59, 59, 0, loc), time.Date(2021, 1, 31, 12, 0, 0, 0, loc)} {
+			o = append(o, &tengo.Time{Value: t})
+		}
+	}
+	return o
+}
+
+var domainHints = map[string]map[int][]tengo.Object{
+	"text.format_float": {0: hf(1.0/3, 16777217, 1e-40, 0.1, 123.456, 3.4e38, 1e39, 2.5), 1: hs("b", "e", "E", "f", "g", "G", "x", "X"), 2: hi(-1, 0, 1, 3, 8, 17, 30), 3: hi(32, 64)},
+	"text.parse_float":  {0: hs("0.1", "16777217", "1e-40", "3.4e39", "1e400", "0x1p-2", "inf", "NaN", "1_000.5", " 1"), 1: hi(32, 64)},
+	"text.parse_int":    {0: hs("127", "128", "-129", "0x7f", "0b101", "0o17", "017", "32768", "2147483648", "9223372036854775808", "zz", "1_000", "+5"), 1: hi(0, 2, 8, 10, 16, 36), 2: hi(0, 8, 16, 32, 64)},
+	"text.format_int":   {1: hi(2, 8, 10, 16, 36)},
+	"times.add_date":    {0: dstTimes(), 1: hi(0, 0, 1, -1), 2: hi(0, 0, 1, -1, 12, 13), 3: hi(1, -1, 0, 30, 31, 365, 106752, -106752)},
+	"times.add":         {0: dstTimes()},
+	"times.sub":         {0: dstTimes(), 1: dstTimes()},
+	"times.time_hour":   {0: dstTimes()}, "times.time_year_day": {0: dstTimes()}, "times.time_string": {0: dstTimes()}, "times.time_format": {0: dstTimes()},
+	"times.to_utc":      {0: dstTimes()}, "times.to_local": {0: dstTimes()}, "times.time_location": {0: dstTimes()}, "times.time_unix": {0: dstTimes()},
+	"times.time_weekday": {0: dstTimes()}, "times.time_day": {0: dstTimes()}, "times.after": {0: dstTimes(), 1: dstTimes()}, "times.before": {0: dstTimes(), 1: dstTimes()},
+	"times.date":        {0: hi(2021, 2020, 1970, 1), 1: hi(1, 2, 3, 11, 12, 13, 0), 2: hi(1, 13, 14, 28, 29, 30, 31, 32, 0), 3: hi(0, 1, 2, 12, 23, 24, 25), 4: hi(0, 30, 59, 60), 5: hi(0, 59, 60), 6: hi(0, 999999999, 1000000000)},
+	"times.parse_duration": {0: hs("1h30m", "-1.5s", "1us", "1µs", "2562047h47m16.854775807s", "2562047h47m16.854775808s", ".5m", "1d", "")},
+	"times.month_string": {0: hi(1, 2, 12, 13, 0)},
+}
+
+func hintOK(rt string, o tengo.Object) bool {
+	switch o.(type) {
+	case *tengo.String:
+		return rt == "text" || rt == "numstr"
+	case *tengo.Int:
+		return rt == "int"
+	case *tengo.Float:
+		return rt == "float"
+	case *tengo.Time:
+		return rt == "time"
+	}
+	return false
+}
+
 func drawRT(rt string, rng *rand.Rand, fn string, stringPos bool) tengo.Object {
 	switch rt {
 	case "int":
@@ -733,6 +802,11 @@ func init() {
 							a[i] = cv // arity and type obligations: benign co-arguments, so that the check in question is reached
 						} else {
 							a[i] = drawRT(rt, rng, c.Mod+"."+c.Fn, kind == "S" || kind == "Zs" || kind == "Sl" || kind == "Y")
+							if h := domainHints[c.Mod+"."+c.Fn][i]; len(h) > 0 && rng.Intn(4) > 0 {
+								if hv := h[rng.Intn(len(h))]; hintOK(rt, hv) {
+									a[i] = hv
+								}
+							}
 						}
 					}
 					switch c.Mod + "." + c.Fn {
@@ -742,6 +816,11 @@ func init() {
 						}
 						if n, ok := tengo.ToInt(a[0]); ok && (n > 50 || n < -50) {
 							a[0] = &tengo.Int{Value: int64(n % 50)}
+						}
+					}
+					if c.Mod == "text" && c.Fn == "format_float" && len(a) == 4 { // the precision is a size: strconv itself panics on absurd ones
+						if n, ok := tengo.ToInt64(a[2]); ok && (n > 2000 || n < -2000) {
+							a[2] = &tengo.Int{Value: 17}
 						}
 					}
 					if c.Mod == "times" && c.Fn == "sleep" && len(a) == 1 {
